@@ -15,7 +15,7 @@ git -C /repo worktree add -q --detach $WT HEAD || { rmdir /var/tmp/seedlock_$SLO
 trap "git -C /repo worktree remove --force $WT; rmdir /var/tmp/seedlock_$SLOT" EXIT
 cd $WT
 DEMO=$(ls $D | grep -v patch.diff | grep -v README | grep -v meta.json | head -1)
-cp $D/$DEMO $DEST
+mkdir -p $(dirname $DEST); cp $D/$DEMO $DEST
 echo "--- demo WITHOUT patch (expect pass)"; go test -count=1 "$@" 2>&1 | tail -3; A=${PIPESTATUS[0]}
 git apply $D/patch.diff || { echo "PATCH DOES NOT APPLY"; exit 2; }
 go build ./... || { echo "DOES NOT BUILD"; exit 2; }
